@@ -27,6 +27,15 @@ CFGS = {
     "nolikely": {"crate": "harness", "features": []},
     "serde": {"crate": "harness", "features": ["likelysubtags", "serde"]},
 }
+# C20: the same harness sources compiled against the facade crates under every feature subset
+import itertools
+FACADE_FEATURES = ["likelysubtags", "serde", "macros"]
+FACADE_CFGS = []
+for n_ in range(len(FACADE_FEATURES) + 1):
+    for sub in itertools.combinations(FACADE_FEATURES, n_):
+        name_ = "facade_" + ("_".join(x[:5] for x in sub) if sub else "none")
+        CFGS[name_] = {"crate": "harness_facade", "features": list(sub)}
+        FACADE_CFGS.append(name_)
 
 GLOBAL_ASSUMPTIONS = [
     "Kani 0.68 / CBMC 6.11 / CaDiCaL are sound for the dev-profile MIR they are given (overflow checks on)",
@@ -68,7 +77,17 @@ def mk(*ds):
 # overflow assertions itself); dropped in the large functional harnesses to fit memory
 NOPTR = ["--no-pointer-check", "--no-bounds-check"]
 STR_STUBS = ["std::string::String::push_str", "std::string::String::push"]
+INSREM = ["std::vec::Vec::insert", "std::vec::Vec::remove"]
 EXT_STUBS = ["std::vec::Vec::push", "<[tinystr::TinyAsciiStr<8>]>::sort_unstable"]
+PARSER_STUBS = ["std::vec::Vec::push", "<[unic_langid_impl::subtags::Variant]>::sort_unstable", "std::vec::Vec::into_boxed_slice"]
+VAL_UW = {r"h::|c\d\d::": 6, r"SlicePartialEq<unic_langid_impl::subtags::Variant>|SlicePartialOrd<unic_langid_impl::subtags::Variant>|SliceOrd<unic_langid_impl::subtags::Variant>|<\[unic_langid_impl::subtags::Variant\]": 4, r"variants_eq|variants_cmp": 6}
+VEC_STUBS = ["<[unic_langid_impl::subtags::Variant]>::sort_unstable", "std::vec::Vec::into_boxed_slice", "<[unic_langid_impl::subtags::Variant]>::to_vec"]
+VEC_UW = {r"stubs::|sort_unstable|to_vec|dedup": 5, r"h::|c\d\d::": 6, r"insert_sorted_unique": 5}
+FMT_UW = {r"tinystr::": 10, r"^memcmp$": 30, r"stubs::push_str|String::push_str": 10, r"core::fmt|fmt::Write|String|\bstr::|Display": 8, r"memcpy|memmove": 24}
+TAB_UW = {r"c18::": 10, r"contains|Iter<u": 40, r"txt_len": 10}
+LK_UW = {r"lk::find": 15, r"contains|Iter<u": 40, r"c06::|c14::": 6}
+FMT2 = {r"tinystr::": 10, r"bytes_are|is_canonical_langid": 50, r"stubs::push_str|String::push_str": 10, r"core::fmt|fmt::Write|String|\bstr::|Display|write_str|write_char|push_str|extend": 10, r"memcpy|memmove": 24, r"bytes_are|is_canonical_langid": 50, r"write_langid|write_txt": 10, r"Tok::lit": 10, r"c04::|c05::": 8}
+BIG = dict(mem_gb=44, cbmc=["--no-pointer-check", "--no-bounds-check"], trace=False, timeout_t=6000, weight=6)
 
 PROPS["C15"] = P(
     jobs=[
@@ -81,19 +100,38 @@ PROPS["C15"] = P(
     outside="subtags longer than 9 bytes (the only length-dependent code is `len > N` in TinyAsciiStr::from_bytes_inner)",
 )
 
-PARSER_STUBS = ["std::vec::Vec::push", "<[unic_langid_impl::subtags::Variant]>::sort_unstable", "std::vec::Vec::into_boxed_slice"]
 # loops of the repo's own parser and of std iterator adaptors: one iteration per token (+1 to leave)
 def tok_uw(k):
     return {r"parse_language_identifier_from_iter": k + 2, r"array::|from_fn|try_from_fn|iter_next_unchecked|drain_array|Copied|slice::Iter<": k + 2,
             r"stubs::(sort_unstable|push|to_vec)": 6, r"dedup": k + 2, r"h::": 6}
+
+def ext_uw(k):
+    d = dict(tok_uw(k))
+    d.update({r"try_from_iter": k + 2, r"btree": 3, r"dedup": k + 2, r"is_type|is_attribute|is_language_subtag|Iter<'_, u8>": 10})
+    return d
+TLIST_STUBS = EXT_STUBS + ["<[unic_langid_impl::subtags::Variant]>::sort_unstable", "std::vec::Vec::into_boxed_slice"]
+def xuw(k):
+    d = ext_uw(k)
+    d.update({r"xspec::|iter_is|ulist_is|tlist_is|plist_is|count_t?keys|insert_sorted": max(k + 4, 6), r"spec::infos|toks_len|toks9|h::slices": k + 2})
+    return d
+C10_UW = {r"stubs::": 6, r"c10::|set_contains|set_remove|insert_sorted|iter_is|ulist_is|plist_is": 6, r"binary_search": 4, r"Vec::<.*>::(insert|remove)|contains|memmove|memcpy": 6, r"btree": 3, r"dedup": 5}
+def glue_uw(n, k):
+    return mk({r"Split|position|split_ref|c02::|c13::|c03::|c09::|spec::infos": n + 2}, ext_uw(k))
 
 PROPS["C02"] = P(
     jobs=[
         J("c02_tokens_1", unwind=6, uw=tok_uw(1), stubs=PARSER_STUBS, desc="LanguageIdentifier::try_from_iter(.., false) on 1 x T9 vs reference recogniser/canonicaliser"),
         J("c02_tokens_2", unwind=6, uw=tok_uw(2), stubs=PARSER_STUBS, desc="2 x T9", weight=2),
         J("c02_tokens_3", unwind=6, uw=tok_uw(3), stubs=PARSER_STUBS, desc="3 x T9", weight=3),
-        J("c02_bytes_3", unwind=7, uw=mk(tok_uw(4), {r"Split|position|split_ref|c02::": 6}), stubs=PARSER_STUBS, desc="LanguageIdentifier::from_bytes on every byte string of length <= 3 vs reference split + recogniser", weight=3),
-        J("c02_bytes_4", tier="t", unwind=8, uw=mk(tok_uw(5), {r"Split|position|split_ref|c02::": 7}), stubs=PARSER_STUBS, desc="every byte string of length <= 4", weight=4, mem_gb=16),
+        J("c02_bytes_len0", unwind=4, uw=mk({r"Split|position|split_ref|c02::": 3}, tok_uw(1)), stubs=PARSER_STUBS, desc="LanguageIdentifier::from_bytes on the empty string"),
+        J("c02_bytes_len1", unwind=4, uw=mk({r"Split|position|split_ref|c02::": 3}, tok_uw(1)), stubs=PARSER_STUBS, desc="from_bytes on every 1-byte string vs reference split + recogniser"),
+        J("c02_bytes_len2", unwind=5, uw=mk({r"Split|position|split_ref|c02::": 4}, tok_uw(2)), stubs=PARSER_STUBS, desc="every 2-byte string", weight=2, mem_gb=16),
+        J("c02_bytes_len3", unwind=6, uw=mk({r"Split|position|split_ref|c02::": 5}, tok_uw(3)), stubs=PARSER_STUBS, desc="every 3-byte string", tier="t", weight=4, mem_gb=30),
+        J("c02_bytes_len4", tier="t", unwind=7, uw=mk({r"Split|position|split_ref|c02::": 6}, tok_uw(4)), stubs=PARSER_STUBS, desc="every 4-byte string", weight=5, mem_gb=30),
+        J("c02_sep_en_us", unwind=7, uw=mk({r"Split|position|split_ref|c02::|spec::infos": 7}, tok_uw(1)), stubs=PARSER_STUBS, desc="from_bytes on 'en?US' with ? any byte: exactly '-' and '_' separate", weight=2),
+        J("c02_sep_en_latn_us_macos", tier="t", unwind=18, uw=mk({r"Split|position|split_ref|c02::|spec::infos": 18}, tok_uw(3)), stubs=PARSER_STUBS, desc="from_bytes on 'en?Latn?US?macos', each ? any byte (2^24 inputs)", weight=3, mem_gb=30, cbmc=NOPTR),
+        J("c02_bytes_3", tier="x", unwind=7, uw=mk({r"Split|position|split_ref|c02::": 6}, tok_uw(4)), stubs=PARSER_STUBS, desc="LanguageIdentifier::from_bytes on every byte string of length <= 3 vs reference split + recogniser", weight=3),
+        J("c02_bytes_4", tier="x", unwind=8, uw=mk({r"Split|position|split_ref|c02::": 7}, tok_uw(5)), stubs=PARSER_STUBS, desc="every byte string of length <= 4", weight=4, mem_gb=16),
         J("c02_tokens_4", tier="t", unwind=6, uw=tok_uw(4), stubs=PARSER_STUBS, desc="4 x T9", weight=4, mem_gb=12),
     ],
     bounds="token level: 1..3 (quick) / 1..4 (thorough) subtags, each " + T9,
@@ -101,8 +139,6 @@ PROPS["C02"] = P(
 )
 
 # value-level harnesses: slices of <= 2 variants (bound 4 = elements + 2), fixed 8-byte texts
-VAL_UW = {r"h::|c\d\d::": 6, r"SlicePartialEq<unic_langid_impl::subtags::Variant>|SlicePartialOrd<unic_langid_impl::subtags::Variant>|SliceOrd<unic_langid_impl::subtags::Variant>|<\[unic_langid_impl::subtags::Variant\]": 4,
-          r"variants_eq|variants_cmp": 6}
 PROPS["C11"] = P(
     jobs=[
         J("c11_language_matches", unwind=6, desc="Language::matches on two symbolic valid languages (incl. und) x 4 flag pairs"),
@@ -115,8 +151,6 @@ PROPS["C11"] = P(
     outside="identifiers with more than 2 variants",
 )
 
-VEC_STUBS = ["<[unic_langid_impl::subtags::Variant]>::sort_unstable", "std::vec::Vec::into_boxed_slice", "<[unic_langid_impl::subtags::Variant]>::to_vec"]
-VEC_UW = {r"stubs::|sort_unstable|to_vec|dedup": 5, r"h::|c\d\d::": 6, r"insert_sorted_unique": 5}
 PROPS["C17"] = P(
     jobs=[
         J("c17_language_raw", unwind=6, desc="Language <-> Option<u64>: round trip, text intact, injective; all valid languages incl. und"),
@@ -126,19 +160,24 @@ PROPS["C17"] = P(
         J("c17_langid_parts_roundtrip", unwind=6, uw=VEC_UW, stubs=VEC_STUBS, desc="from_parts(into_parts(x)) == x, x any langid with 0..2 variants", weight=2),
         J("c17_from_parts_v0", unwind=6, uw=VEC_UW, stubs=VEC_STUBS, desc="from_parts with no variants == reference value"),
         J("c17_from_parts_v2", unwind=6, uw=VEC_UW, stubs=VEC_STUBS, desc="from_parts with 2 variants in any order / equal == reference canonical value", weight=2),
+        J("c17_locale_parts_noext", unwind=6, uw=mk(VEC_UW, FMT2, glue_uw(1, 1)), stubs=VEC_STUBS + STR_STUBS + EXT_STUBS, desc="Locale without extensions (any id, <=1 variant): into_parts -> empty extension string -> re-parse -> from_parts == original", weight=3, mem_gb=16, cbmc=NOPTR),
+        J("c17_extmap_leading_sep", unwind=9, uw=glue_uw(7, 2), stubs=TLIST_STUBS, desc="ExtensionsMap::from_bytes tolerates the leading separator of its own Display output (concrete '-u-attr')", weight=2, mem_gb=12, cbmc=NOPTR),
         J("c17_from_parts_v3", unwind=6, uw=VEC_UW, stubs=VEC_STUBS, desc="3 variants, any order, duplicates allowed", weight=3),
     ],
     bounds="every valid subtag of each type (all T9 inputs the checked constructor accepts); language identifiers with 0..2 variants (round trip) and from_parts with 0, 2 (quick) or 3 (thorough) variants in arbitrary order with duplicates",
     outside="Locale::into_parts/from_parts with an extension string (see C05); more than 3 variants; std models of sort_unstable/to_vec/into_boxed_slice",
 )
 
-FMT_UW = {r"stubs::push_str|String::push_str": 10, r"core::fmt|fmt::Write|String|str::|Display": 8, r"memcpy|memmove": 24}
 PROPS["C12"] = P(
     jobs=[
         J("c12_langid_eq_ord_v1", unwind=6, uw=VAL_UW, desc="==, cmp, partial_cmp vs field-by-field reference, antisymmetry; <=1 variant per side", weight=2),
         J("c12_langid_eq_ord_v2", tier="t", unwind=6, uw=VAL_UW, desc="as above, <=2 variants per side", weight=3, mem_gb=12),
-        J("c12_langid_hash", unwind=6, uw=mk({r"Fnv|hash": 24}, VAL_UW), desc="equal values hash equally (FNV-1a hasher), <=2 variants", weight=2),
+        J("c12_langid_hash", unwind=6, uw=mk({r"Fnv|hash": 10}, VAL_UW), desc="equal values hash equally (fixed rotate-xor hasher), <=2 variants", weight=2),
         J("c12_routes_no_variants", unwind=6, uw=mk({r"Fnv|hash": 24}, VEC_UW, VAL_UW), stubs=VEC_STUBS, desc="set_variants(&[]) / clear_variants / from_parts(.., &[]) / never set: ==, same hash, Equal; any langid with <=2 variants", weight=2, mem_gb=12),
+        J("c12_ulist_eq_3_3", unwind=6, uw=mk({r"Fnv|hash": 10, r"umodel_eq|c12::": 6}, xuw(2)), stubs=EXT_STUBS, desc="two -u- lists parsed from [S(3),S(3)]: == iff same canonical content, Equal iff ==, antisymmetric, equal => same hash", weight=4, mem_gb=24, cbmc=NOPTR),
+        J("c12_ulist_eq_2_3", tier="t", unwind=6, uw=mk({r"Fnv|hash": 10, r"umodel_eq|c12::": 6}, xuw(2)), stubs=EXT_STUBS, desc="two -u- lists parsed from [S(2),S(3)] (one keyword each)", weight=5, mem_gb=40, cbmc=NOPTR, timeout_t=5400),
+        J("c12_routes_ext", unwind=6, uw=mk({r"Fnv|hash": 10}, C10_UW), stubs=INSREM + EXT_STUBS, desc="attribute / private tag added then removed == never added: ==, same hash, Equal", weight=2, mem_gb=12, cbmc=NOPTR),
+        J("c12_routes_keyword", unwind=6, uw=mk({r"Fnv|hash": 10}, C10_UW), stubs=EXT_STUBS, desc="keyword set then removed == never set: ==, same hash, Equal", weight=3, mem_gb=16, cbmc=NOPTR),
         J("c12_langid_ord_transitive", unwind=6, uw=VAL_UW, desc="cmp transitive on symbolic triples, <=1 variant", weight=3, mem_gb=12),
         J("c12_langid_eq_iff_string_eq", unwind=6, uw=mk(FMT_UW, VAL_UW), stubs=STR_STUBS, desc="x == y iff to_string equal, real Display/core::fmt, <=1 variant", weight=3, mem_gb=12),
         J("c12_langid_eq_str", unwind=6, uw=mk({r"c12::c12_langid_eq_str": 18, r"write_langid|write_txt": 10}, VAL_UW, FMT_UW), stubs=STR_STUBS, desc="li == &str iff str is the canonical text; str = any ASCII string <= 16 bytes", weight=3, mem_gb=12),
@@ -146,19 +185,22 @@ PROPS["C12"] = P(
     bounds="pairs/triples of language identifiers: any valid language (or und), optional script, optional region, 0..1 (quick) / 0..2 (thorough) variants; &str operands: any ASCII string of <= 16 bytes",
     outside="Locale/ExtensionsMap ordering (see level_note), identifiers with more than 2 variants, strings longer than 16 bytes",
 )
-C13_UW = dict(tok_uw(3))
 PROPS["C13"] = P(
     jobs=[
-        J("c13_superset_1", unwind=6, uw=tok_uw(1), stubs=PARSER_STUBS, desc="1 x T9 through both token-level entries"),
+        J("c13_superset_1", unwind=6, uw=tok_uw(1), stubs=PARSER_STUBS, desc="1 x T9 through the strict and the permissive token-level entry"),
         J("c13_superset_2", unwind=6, uw=tok_uw(2), stubs=PARSER_STUBS, desc="2 x T9", weight=2),
-        J("c13_superset_3", tier="t", unwind=6, uw=tok_uw(3), stubs=PARSER_STUBS, desc="3 x T9", weight=3, mem_gb=12),
+        J("c13_superset_3", unwind=6, uw=tok_uw(3), stubs=PARSER_STUBS, desc="3 x T9", weight=3, mem_gb=12),
+        J("c13_prefix_2", unwind=6, uw=tok_uw(2), stubs=PARSER_STUBS, desc="2 x T9: the permissive entry's result equals the strict parse of the consumed prefix", weight=2),
+        J("c13_prefix_3", tier="t", unwind=6, uw=tok_uw(3), stubs=PARSER_STUBS, desc="3 x T9", weight=3, mem_gb=12),
+        J("c13_extmap_exhausted", unwind=6, uw=ext_uw(1), stubs=EXT_STUBS, desc="ExtensionsMap::try_from_iter on an exhausted iterator is Ok(empty)"),
+        J("c13_locale_glue_en_us", unwind=8, uw=glue_uw(5, 2), stubs=TLIST_STUBS, desc="Locale::from_bytes vs LanguageIdentifier::from_bytes on 'en?US', ? any byte", weight=3, mem_gb=16, cbmc=NOPTR),
+        J("c13_locale_glue_en_x_ab", tier="t", unwind=10, uw=glue_uw(7, 3), stubs=TLIST_STUBS, desc="same on 'en?x?ab'", weight=4, mem_gb=24, cbmc=NOPTR),
         J("c13_conversions", unwind=6, uw=VAL_UW, desc="From/Into/AsRef between LanguageIdentifier and Locale, any langid with <=2 variants"),
     ],
-    bounds="token level: 1..2 (quick) / 3 (thorough) subtags, each " + T9 + "; conversions: any langid with <= 2 variants",
-    outside="inputs with more than 3 subtags; subtags longer than 9 bytes",
+    bounds="token level: 1..3 subtags, each " + T9 + "; byte level: the frames 'en?US' (quick) and 'en?x?ab' (thorough) with every ? an arbitrary byte; conversions: any langid with <= 2 variants",
+    outside="inputs with more than 3 subtags; subtags longer than 9 bytes; the composition 'permissive entry leaves nothing => extension parser sees an exhausted iterator' is by reading parse_locale's three lines, re-checked on the byte-level frames",
 )
 
-TAB_UW = {r"c18::": 10, r"contains|Iter<u": 40, r"txt_len": 10}
 PROPS["C18"] = P(
     jobs=[
         J("c18_lang_only", unwind=10, uw=TAB_UW, desc="LANG_ONLY[i] for symbolic i over all 7143 rows: key/value == CLDR, well formed, strictly increasing (columns flattened from the compiled static by rustc const-eval, row index symbolic)", weight=3, mem_gb=16, cbmc=["--no-pointer-check"], trace=False),
@@ -175,7 +217,6 @@ PROPS["C18"] = P(
     outside="re-running the repository's generator binaries and diffing their output (a concrete execution, not a solver query); the JSON parser of tools/cldr_ref.py is trusted",
 )
 
-LK_UW = {r"lk::find": 15, r"contains|Iter<u": 40, r"c06::|c14::": 6}
 PROPS["C06"] = P(
     jobs=[
         J("c06_kv_region_only", unwind=6, uw=LK_UW, desc="maximize(und,-,K) == V for symbolic row of REGION_ONLY (all 258)"),
@@ -218,37 +259,22 @@ PROPS["C14"] = P(
     outside="arbitrary identifiers of RTL-listed languages without a listed script (their answer is defined only through the rows); quick tier skips the rows that reach the 7143-row table with likelysubtags on",
 )
 
-def ext_uw(k):
-    d = dict(tok_uw(k))
-    d.update({r"try_from_iter": k + 2, r"btree": 3, r"dedup": k + 2, r"is_type|is_attribute|is_language_subtag|Iter<'_, u8>": 10})
-    return d
-PROPS["C01"] = P(
-    jobs=[
-        J("c01_extmap_dispatch_1", unwind=6, uw=ext_uw(1), stubs=EXT_STUBS, desc="ExtensionsMap::try_from_iter on [T9]"),
-        J("c01_extmap_dispatch_2", unwind=6, uw=ext_uw(2), stubs=EXT_STUBS, desc="ExtensionsMap::try_from_iter on [T9,T9]", weight=3),
-        J("c01_ulist_1", unwind=6, uw=ext_uw(1), stubs=EXT_STUBS, desc="UnicodeExtensionList::try_from_iter on [T9]"),
-        J("c01_ulist_2", unwind=6, uw=ext_uw(2), stubs=EXT_STUBS, desc="on [T9,T9]", weight=2),
-        J("c01_tlist_1", unwind=6, uw=ext_uw(1), stubs=EXT_STUBS, desc="TransformExtensionList::try_from_iter on [T9]"),
-        J("c01_tlist_2", unwind=6, uw=ext_uw(2), stubs=EXT_STUBS, desc="on [T9,T9]", weight=2),
-        J("c01_plist_2", unwind=6, uw=ext_uw(2), stubs=EXT_STUBS, desc="PrivateExtensionList::try_from_iter on [T9,T9]"),
-        J("c01_plist_3", unwind=6, uw=ext_uw(3), stubs=EXT_STUBS, desc="on [T9,T9,T9]", weight=2),
-    ],
-    bounds="", outside="",
-)
-
-TLIST_STUBS = EXT_STUBS + ["<[unic_langid_impl::subtags::Variant]>::sort_unstable", "std::vec::Vec::into_boxed_slice"]
-def xuw(k):
-    d = ext_uw(k)
-    d.update({r"xspec::|iter_is|ulist_is|tlist_is|plist_is|count_t?keys|insert_sorted": k + 4, r"spec::infos|toks_len|toks9|h::slices": k + 2})
-    return d
 def uf(name, lens, tier="q", **kw):
     kw.setdefault("mem_gb", 12)
     kw.setdefault("cbmc", NOPTR)
     return J(name, tier=tier, unwind=6, uw=xuw(len(lens)), stubs=EXT_STUBS, desc="-u- body, subtag lengths %s, all contents symbolic" % lens, **kw)
 def tf(name, lens, tier="q", **kw):
-    kw.setdefault("mem_gb", 12)
+    kw.setdefault("mem_gb", 30)
     kw.setdefault("cbmc", NOPTR)
     return J(name, tier=tier, unwind=6, uw=xuw(len(lens)), stubs=TLIST_STUBS, desc="-t- body, subtag lengths %s, all contents symbolic" % lens, **kw)
+def tk(name, k, tier="q", t=True, **kw):
+    kw.setdefault("mem_gb", 16)
+    kw.setdefault("cbmc", NOPTR)
+    return J(name, tier=tier, unwind=6, uw=mk({r"frame_toks": k + 2}, xuw(k)), stubs=TLIST_STUBS if t else EXT_STUBS, desc="%s body on the frame %s: concrete key subtags (lower/upper case as written), the other subtags of the given length with all contents symbolic" % ("-t-" if t else "-u-", name[7:]), weight=3, **kw)
+def mf(name, k, tier="q", **kw):
+    kw.setdefault("mem_gb", 30)
+    kw.setdefault("cbmc", NOPTR)
+    return J(name, tier=tier, unwind=6, uw=mk({r"parse_map|frame_toks": k + 2}, xuw(k)), stubs=TLIST_STUBS, desc="whole extension map on the composition frame %s (singletons in symbolic case, other subtags of the given length with all contents symbolic) vs three-zone oracle" % name[8:], weight=4, **kw)
 PROPS["C03"] = P(
     jobs=[
         J("c03_dispatch_1", unwind=6, uw=xuw(1), stubs=EXT_STUBS, desc="ExtensionsMap::try_from_iter on one fully symbolic subtag vs reference dispatcher"),
@@ -257,6 +283,9 @@ PROPS["C03"] = P(
         uf("c03_u_2_2", [2, 2], tier="t"), uf("c03_u_2_3_2_3", [2, 3, 2, 3], tier="t"),
         tf("c03_t_2", [2]), tf("c03_t_2_3", [2, 3]), tf("c03_t_3", [3]), tf("c03_t_2_3_1", [2, 3, 1], tier="t", mem_gb=44, timeout_t=3000, trace=False), tf("c03_t_2_2_3", [2, 2, 3]),
         tf("c03_t_2_5_2", [2, 5, 2], tier="t", mem_gb=44, timeout_t=3000, trace=False), tf("c03_t_2_3_2_3", [2, 3, 2, 3], tier="t"),
+        tk("c03_tk_h0_3", 2), tk("c03_tk_h0_3_1", 3), tk("c03_tk_h0_3_9", 3, tier="t"), tk("c03_tk_h0_4_5", 3, tier="t"), tk("c03_tk_h0_3_k0_4", 4), tk("c03_tk_en_5_2", 3), tk("c03_tk_en_h0_3", 3, tier="t"),
+        tk("c03_uk_ca_3", 2, t=False), tk("c03_uk_ca_4_1", 3, t=False), tk("c03_uk_3_ca_4", 3, t=False, tier="t"), tk("c03_uk_nu_3_ca_4", 4, t=False),
+        mf("c03_map_u3_u3", 4), mf("c03_map_u3_x3", 4), mf("c03_map_t2_3_u3", 5), mf("c03_map_u3_t2", 4), mf("c03_map_t2_t2", 4), mf("c03_map_u2_3_t2_3_x3", 8, tier="t"),
         J("c03_x_1", unwind=6, uw=xuw(1), stubs=EXT_STUBS, desc="-x- body, 1 x T9"),
         J("c03_x_2", unwind=6, uw=xuw(2), stubs=EXT_STUBS, desc="-x- body, 2 x T9"),
         J("c03_x_3", unwind=6, uw=xuw(3), stubs=EXT_STUBS, desc="-x- body, 3 x T9"),
@@ -264,13 +293,18 @@ PROPS["C03"] = P(
     bounds="", outside="",
 )
 
-FMT2 = {r"bytes_are|is_canonical_langid": 50, r"stubs::push_str|String::push_str": 10, r"core::fmt|fmt::Write|String|str::|Display|write_str|write_char|push_str|extend": 10, r"memcpy|memmove": 24, r"bytes_are|is_canonical_langid": 50,
-        r"write_langid|write_txt": 10, r"Tok::lit": 10, r"c04::|c05::": 8}
 PROPS["C04"] = P(
     jobs=[
         J("c04_subtag_display", unwind=6, uw=mk(FMT2, VAL_UW), desc="Display/as_str of every valid subtag of the four types == reference text"),
         J("c04_langid_display_v0", unwind=6, uw=mk(FMT2, VAL_UW), desc="to_string of any langid without variants == reference serialiser; strict recogniser accepts", weight=2),
         J("c04_langid_display_v2", unwind=6, uw=mk(FMT2, VAL_UW), desc="same with 0..2 variants", weight=3, mem_gb=12),
+        J("c04_u_display_3_3", unwind=6, uw=mk(FMT2, xuw(2)), stubs=EXT_STUBS + STR_STUBS, desc="Display of a -u- list parsed from [S(3),S(3)] (two attributes, any order / equal) == reference serialisation", weight=3, mem_gb=16, cbmc=NOPTR),
+        J("c04_u_display_3_2_4", unwind=6, uw=mk(FMT2, xuw(3)), stubs=EXT_STUBS + STR_STUBS, desc="-u- list from [S(3),S(2),S(4)] (attribute, key, type)", weight=4, mem_gb=24, cbmc=NOPTR),
+        J("c04_u_display_2_3_2_3", tier="t", unwind=6, uw=mk(FMT2, xuw(4)), stubs=EXT_STUBS + STR_STUBS, desc="-u- list with two keywords (key order in the output)", weight=5, mem_gb=40, cbmc=NOPTR, timeout_t=5400),
+        J("c04_t_display_2_3", unwind=6, uw=mk(FMT2, xuw(2)), stubs=TLIST_STUBS + STR_STUBS, desc="Display of a -t- list parsed from [S(2),S(3)] (tlang+region / tlang+? / key+value)", weight=4, mem_gb=30, cbmc=NOPTR),
+        J("c04_t_display_2_2_2_3", tier="t", unwind=6, uw=mk(FMT2, xuw(4)), stubs=TLIST_STUBS + STR_STUBS, desc="-t- list with tlang-region and one field", weight=5, mem_gb=40, cbmc=NOPTR, timeout_t=5400),
+        J("c04_x_display_2", unwind=6, uw=mk(FMT2, xuw(2)), stubs=EXT_STUBS + STR_STUBS, desc="Display of private tags parsed from 2 x T9", weight=2, mem_gb=12, cbmc=NOPTR),
+        J("c04_locale_display", tier="t", unwind=6, uw=mk(FMT2, xuw(2), VAL_UW), stubs=TLIST_STUBS + STR_STUBS, desc="whole Locale (language-region id, one -t- element, one -u- attribute, one private tag): order id, t, u, x", weight=5, mem_gb=40, cbmc=NOPTR, timeout_t=5400),
         J("c04_canonicalize_tokens_2", unwind=6, uw=mk(FMT2, tok_uw(2)), stubs=PARSER_STUBS, desc="token-level canonicalize on 2 x T9: string == reference canonicalisation, not longer than input", weight=3, mem_gb=12),
         J("c04_canonicalize_tokens_3", tier="t", unwind=6, uw=mk(FMT2, tok_uw(3)), stubs=PARSER_STUBS, desc="3 x T9", weight=4, mem_gb=16),
     ],
@@ -279,7 +313,11 @@ PROPS["C04"] = P(
 PROPS["C05"] = P(
     jobs=[
         J("c05_subtag_roundtrip", unwind=6, uw=mk(FMT2, VAL_UW), desc="from_str(to_string(x)) == x for every valid subtag of the four types", weight=2),
-        J("c05_langid_reparse_tokens", unwind=6, uw=mk(FMT2, tok_uw(5), VAL_UW), stubs=PARSER_STUBS, desc="any langid with <=2 variants: its own printed subtags re-parse to an equal value", weight=3, mem_gb=12),
+        J("c05_langid_reparse_ls", unwind=6, uw=mk(FMT2, tok_uw(2), VAL_UW), stubs=PARSER_STUBS, desc="any language-script identifier: its own printed subtags re-parse to an equal value", weight=2, mem_gb=12),
+        J("c05_langid_reparse_lv", unwind=6, uw=mk(FMT2, tok_uw(2), VAL_UW), stubs=PARSER_STUBS, desc="any language-variant identifier", weight=2, mem_gb=12),
+        J("c05_langid_reparse_lsrv", unwind=6, uw=mk(FMT2, tok_uw(4), VAL_UW), stubs=PARSER_STUBS, desc="any language-script-region-variant identifier", weight=4, mem_gb=24),
+        J("c05_langid_reparse_lrvv", tier="t", unwind=6, uw=mk(FMT2, tok_uw(4), VAL_UW), stubs=PARSER_STUBS, desc="language-region with two variants", weight=4, mem_gb=30),
+        J("c05_langid_reparse_lsrvv", tier="t", unwind=6, uw=mk(FMT2, tok_uw(5), VAL_UW), stubs=PARSER_STUBS, desc="language-script-region with two variants", weight=5, mem_gb=40),
         J("c05_canonicalize_idempotent_2", unwind=6, uw=mk(FMT2, tok_uw(2)), stubs=PARSER_STUBS, desc="2 x T9: canonical form re-parses to the same value", weight=3, mem_gb=12),
     ],
     bounds="", outside="",
@@ -291,17 +329,28 @@ PROPS["C09"] = P(
         J("c09_case_2", unwind=6, uw=mk(tok_uw(2), {r"recase|c09::": 10}), stubs=PARSER_STUBS, desc="2 x T9 under a symbolic case mask", weight=3, mem_gb=12),
         J("c09_case_3", tier="t", unwind=6, uw=mk(tok_uw(3), {r"recase|c09::": 10}), stubs=PARSER_STUBS, desc="3 x T9 under a symbolic case mask", weight=4, mem_gb=20),
         J("c09_variant_order", tier="t", unwind=6, uw=mk(tok_uw(4), {r"c09::": 10}), stubs=PARSER_STUBS, desc="[L,V1,V2] vs [L,V2,V1] vs [L,V1,V2,V1], all T9", weight=5, mem_gb=24),
-        J("c09_separators_4", unwind=8, uw=mk(tok_uw(5), {r"Split|position|c09::": 7}), stubs=PARSER_STUBS, desc="every byte string <= 4 bytes with '-'/'_' exchanged under a symbolic mask, through from_bytes", weight=4, mem_gb=16),
+        J("c09_attr_order", unwind=6, uw=mk({r"c09::|recase": 10}, xuw(3)), stubs=EXT_STUBS, desc="-u- attributes [A1,A2] vs [A2,A1] vs [A1,A2,A1], A1/A2 any 3 bytes", weight=3, mem_gb=16, cbmc=NOPTR),
+        J("c09_u_case_3", unwind=6, uw=mk({r"c09::|recase": 10}, xuw(1)), stubs=EXT_STUBS, desc="-u- body [S(3)] under a symbolic case mask", weight=2, mem_gb=12, cbmc=NOPTR),
+        J("c09_u_case_2_3", unwind=6, uw=mk({r"c09::|recase": 10}, xuw(2)), stubs=EXT_STUBS, desc="-u- body [S(2),S(3)] under a symbolic case mask", weight=4, mem_gb=24, cbmc=NOPTR),
+        J("c09_t_case_2_3", tier="t", unwind=6, uw=mk({r"c09::|recase": 10}, xuw(2)), stubs=TLIST_STUBS, desc="-t- body [S(2),S(3)] under a symbolic case mask", weight=5, mem_gb=40, cbmc=NOPTR),
+        J("c09_keyword_order", tier="t", unwind=6, uw=mk({r"c09::|recase": 10}, xuw(4)), stubs=EXT_STUBS, desc="-u- keywords [k1,v1,k2,v2] vs [k2,v2,k1,v1], distinct keys (two map entries)", weight=5, mem_gb=40, cbmc=NOPTR, timeout_t=5400),
+        J("c09_tfield_order", tier="t", unwind=6, uw=mk({r"c09::|recase": 10}, xuw(4)), stubs=TLIST_STUBS, desc="-t- fields [k1,v1,k2,v2] vs [k2,v2,k1,v1], distinct keys", weight=5, mem_gb=40, cbmc=NOPTR, timeout_t=5400),
+        J("c09_sep_langid", unwind=18, uw=mk({r"Split|position|c09::": 18}, tok_uw(3)), stubs=PARSER_STUBS, desc="'en?Latn?US?macos' with every ? either '-' or '_' vs the all-'-' spelling, through from_bytes", weight=3, mem_gb=16),
+        J("c09_separators_4", tier="x", unwind=8, uw=mk({r"Split|position|c09::": 7}, tok_uw(5)), stubs=PARSER_STUBS, desc="every byte string <= 4 bytes with '-'/'_' exchanged under a symbolic mask, through from_bytes", weight=4, mem_gb=16),
     ],
     bounds="", outside="",
 )
-C10_UW = {r"c10::|set_contains|set_remove|insert_sorted|iter_is|ulist_is|plist_is": 6, r"binary_search": 4, r"Vec::<.*>::(insert|remove)|contains|memmove|memcpy": 6, r"btree": 3, r"dedup": 5}
 PROPS["C10"] = P(
     jobs=[
-        J("c10_attr_history_2", unwind=6, uw=C10_UW, stubs=["<[tinystr::TinyAsciiStr<8>]>::sort_unstable"], desc="attribute set: all histories of 2 symbolic ops (set/remove/has/clear) with T9 arguments vs sorted-set model", weight=2, mem_gb=12, cbmc=NOPTR),
-        J("c10_attr_history_3", tier="t", unwind=6, uw=C10_UW, stubs=["<[tinystr::TinyAsciiStr<8>]>::sort_unstable"], desc="histories of 3 ops", weight=4, mem_gb=24, cbmc=NOPTR),
-        J("c10_tag_history_2", unwind=6, uw=C10_UW, stubs=EXT_STUBS, desc="private tags: all histories of 2 symbolic ops (add/remove/has/clear) vs sorted-multiset model", weight=2, mem_gb=12, cbmc=NOPTR),
-        J("c10_tag_history_3", tier="t", unwind=6, uw=C10_UW, stubs=EXT_STUBS, desc="histories of 3 ops", weight=4, mem_gb=24, cbmc=NOPTR),
+        J("c10_attr_history_2", unwind=6, uw=C10_UW, stubs=INSREM + ["<[tinystr::TinyAsciiStr<8>]>::sort_unstable"], desc="attribute set: all histories of 2 symbolic ops (set/remove/has/clear) with T9 arguments vs sorted-set model", weight=2, mem_gb=12, cbmc=NOPTR),
+        J("c10_attr_history_3", tier="t", unwind=6, uw=C10_UW, stubs=INSREM + ["<[tinystr::TinyAsciiStr<8>]>::sort_unstable"], desc="histories of 3 ops", weight=4, mem_gb=24, cbmc=NOPTR),
+        J("c10_tag_history_2", unwind=6, uw=C10_UW, stubs=INSREM + EXT_STUBS, desc="private tags: all histories of 2 symbolic ops (add/remove/has/clear) vs sorted-multiset model", weight=2, mem_gb=12, cbmc=NOPTR),
+        J("c10_tag_history_3", tier="t", unwind=6, uw=C10_UW, stubs=INSREM + EXT_STUBS, desc="histories of 3 ops", weight=4, mem_gb=24, cbmc=NOPTR),
+        J("c10_kw_history_1", unwind=6, uw=mk({r"kv_|from_iter|extend|filter_map|FilterMap|GenericShunt|try_fold|try_for_each": 6}, C10_UW), stubs=EXT_STUBS, desc="keywords: one symbolic op (set with 0..2 values / remove / get / clear), key and values T9, vs ordered-map model", weight=3, mem_gb=16, cbmc=NOPTR),
+        J("c10_kw_history_2", tier="t", unwind=6, uw=mk({r"kv_|from_iter|extend|filter_map|FilterMap|GenericShunt|try_fold|try_for_each": 6}, C10_UW), stubs=EXT_STUBS, desc="keywords: histories of 2 ops (may hold two keys)", weight=5, mem_gb=40, cbmc=NOPTR, timeout_t=5400),
+        J("c10_tf_history_1", unwind=6, uw=mk({r"kv_|from_iter|extend|filter_map|FilterMap|GenericShunt|try_fold|try_for_each": 6}, C10_UW), stubs=TLIST_STUBS, desc="tfields: one symbolic op vs ordered-map model", weight=3, mem_gb=16, cbmc=NOPTR),
+        J("c10_tf_history_2", tier="t", unwind=6, uw=mk({r"kv_|from_iter|extend|filter_map|FilterMap|GenericShunt|try_fold|try_for_each": 6}, C10_UW), stubs=TLIST_STUBS, desc="tfields: histories of 2 ops", weight=5, mem_gb=40, cbmc=NOPTR, timeout_t=5400),
+        J("c10_tlang_ops", unwind=6, uw=mk(VAL_UW, C10_UW), desc="set_tlang / replace / clear_tlang with any identifier (<=1 variant)", weight=2),
         J("c10_variants_0", unwind=6, uw=mk(VEC_UW, VAL_UW, C10_UW), stubs=VEC_STUBS, desc="set_variants(&[]) on any langid; has_variant; clear_variants", weight=2),
         J("c10_variants_2", unwind=6, uw=mk(VEC_UW, VAL_UW, C10_UW), stubs=VEC_STUBS, desc="set_variants with 2 symbolic variants (any order/dup); has_variant; clear_variants", weight=3, mem_gb=12),
         J("c10_variants_3", tier="t", unwind=6, uw=mk(VEC_UW, VAL_UW, C10_UW), stubs=VEC_STUBS, desc="3 symbolic variants", weight=4, mem_gb=16),
@@ -311,19 +360,94 @@ PROPS["C10"] = P(
 
 PROPS["C19"] = P(
     jobs=[
-        J("c19_serialize_canonical", cfg="serde", unwind=6, uw=mk({r"c19::|Cap": 50}, VAL_UW, FMT2), stubs=STR_STUBS, desc="Serialize of any langid (<=1 variant) through a capturing Serializer == reference canonical string", weight=2, mem_gb=12),
-        J("c19_deserialize_str_3", cfg="serde", unwind=7, uw=mk(tok_uw(4), {r"Split|position|c19::": 6}), stubs=PARSER_STUBS, desc="Deserialize(visit_str(s)) vs s.parse() for every ASCII string of <= 3 bytes", weight=3, mem_gb=12),
+        J("c19_serialize_canonical", cfg="serde", unwind=6, uw=mk({r"c19::|Cap": 50}, FMT2, VAL_UW), stubs=STR_STUBS, desc="Serialize of any langid (<=1 variant) through a capturing Serializer == reference canonical string", weight=2, mem_gb=12),
+        J("c19_deserialize_frame", cfg="serde", unwind=7, uw=mk({r"Split|position|c19::": 7}, tok_uw(1)), stubs=PARSER_STUBS, desc="Deserialize(visit_str(s)) vs s.parse() on 'en?US', ? any ASCII byte", weight=3, mem_gb=16),
+        J("c19_deserialize_str_2", cfg="serde", unwind=5, uw=mk({r"Split|position|c19::": 4}, tok_uw(2)), stubs=PARSER_STUBS, desc="Deserialize(visit_str(s)) vs s.parse() for every 2-byte ASCII string", weight=3, mem_gb=16),
+        J("c19_deserialize_str_3", tier="x", cfg="serde", unwind=7, uw=mk({r"Split|position|c19::": 6}, tok_uw(4)), stubs=PARSER_STUBS, desc="Deserialize(visit_str(s)) vs s.parse() for every ASCII string of <= 3 bytes", weight=3, mem_gb=12),
         J("c19_non_string_rejected", cfg="serde", unwind=6, desc="bool / u64 / i64 / f64 / unit / none / bytes inputs: Err, no panic"),
     ],
     bounds="", outside="",
 )
 
-BIG = dict(mem_gb=44, cbmc=["--no-pointer-check", "--no-bounds-check"], trace=False, timeout_t=6000, weight=6)
 PROPS["C08"] = P(
     jobs=[
+        J("c08_zh_meaning", tier="q", unwind=6, uw=LK_UW, desc="minimize on (zh, script?, region?), every valid script/region: result within the maximised form, one of the three shapes, maximizes back to it", weight=3, mem_gb=16, cbmc=NOPTR),
+        J("c08_zh_first", tier="q", unwind=6, uw=LK_UW, desc="minimize on (zh, script?, region?), every valid script/region: the chosen form is the first of {language, language-region, language-script} that maximizes back; None only if none does", weight=3, mem_gb=16, cbmc=NOPTR),
+        J("c08_zh_idempotent", tier="q", unwind=6, uw=LK_UW, desc="minimize on (zh, script?, region?), every valid script/region: minimizing twice equals minimizing once", weight=3, mem_gb=16, cbmc=NOPTR),
+        J("c08_zh_minmax", tier="q", unwind=6, uw=LK_UW, desc="minimize on (zh, script?, region?), every valid script/region: minimize(maximize(x)) == minimize(x)", weight=3, mem_gb=16, cbmc=NOPTR),
+        J("c08_sr_meaning", tier="t", unwind=6, uw=LK_UW, desc="minimize on (sr, script?, region?), every valid script/region: result within the maximised form, one of the three shapes, maximizes back to it", weight=3, mem_gb=16, cbmc=NOPTR),
+        J("c08_sr_first", tier="t", unwind=6, uw=LK_UW, desc="minimize on (sr, script?, region?), every valid script/region: the chosen form is the first of {language, language-region, language-script} that maximizes back; None only if none does", weight=3, mem_gb=16, cbmc=NOPTR),
+        J("c08_sr_idempotent", tier="t", unwind=6, uw=LK_UW, desc="minimize on (sr, script?, region?), every valid script/region: minimizing twice equals minimizing once", weight=3, mem_gb=16, cbmc=NOPTR),
+        J("c08_sr_minmax", tier="t", unwind=6, uw=LK_UW, desc="minimize on (sr, script?, region?), every valid script/region: minimize(maximize(x)) == minimize(x)", weight=3, mem_gb=16, cbmc=NOPTR),
+        J("c08_en_meaning", tier="t", unwind=6, uw=LK_UW, desc="minimize on (en, script?, region?), every valid script/region: result within the maximised form, one of the three shapes, maximizes back to it", weight=3, mem_gb=16, cbmc=NOPTR),
+        J("c08_en_first", tier="t", unwind=6, uw=LK_UW, desc="minimize on (en, script?, region?), every valid script/region: the chosen form is the first of {language, language-region, language-script} that maximizes back; None only if none does", weight=3, mem_gb=16, cbmc=NOPTR),
+        J("c08_qaa_meaning", tier="q", unwind=6, uw=LK_UW, desc="minimize on (qaa, script?, region?), every valid script/region: result within the maximised form, one of the three shapes, maximizes back to it", weight=3, mem_gb=16, cbmc=NOPTR),
+        J("c08_wrapper_zh", unwind=6, uw=mk(VAL_UW, LK_UW), desc="LanguageIdentifier::minimize wrapper: variants untouched, bool, unchanged on false (zh, <=1 variant)", weight=3, mem_gb=16, cbmc=NOPTR),
         J("c08_laws_und", tier="t", unwind=6, uw=LK_UW, desc="single-call laws of minimize for (und, script?, region?): result within the maximised form, one of the three shapes, maximizes back", **BIG),
         J("c08_wrapper_und", tier="t", unwind=6, uw=mk(VAL_UW, LK_UW), desc="LanguageIdentifier::minimize wrapper: variants untouched, bool, unchanged on false (und language)", **BIG),
         J("c08_laws_lang", tier="t", unwind=6, uw=LK_UW, desc="same laws for any non-empty language", **BIG),
     ],
-    bounds="", outside="",
+    bounds="quick: the concrete languages zh, sr, en, qaa each with every valid (script?, region?) (all laws, including the two-call laws); thorough: every (und, script?, region?) and every valid (language, script?, region?) for the single-call laws",
+    outside="two-call laws (idempotence, minimize after maximize) for arbitrary symbolic languages; comparison of the chosen form with the CLDR reference (the laws are checked on the library alone; C06 ties maximize to CLDR)",
+)
+
+
+def job(pid, name):
+    for j_ in PROPS[pid].jobs:
+        if j_.harness == name and j_.tier != "x":
+            return j_
+    raise KeyError(name)
+
+def reuse(pid, name, tier=None):
+    """the same harness under another property (Kani's panic / overflow / bounds / unwinding checks are on in every harness)"""
+    import copy
+    j_ = copy.copy(job(pid, name))
+    if tier:
+        j_.tier = tier
+    return j_
+
+PROPS["C01"] = P(
+    jobs=[
+        J("c01_langid_tokens_2", unwind=6, uw=tok_uw(2), stubs=PARSER_STUBS, desc="LanguageIdentifier::try_from_iter on 2 x T9, allow_extension symbolic: no panic, terminates", weight=2),
+        J("c01_langid_tokens_3", tier="t", unwind=6, uw=tok_uw(3), stubs=PARSER_STUBS, desc="3 x T9", weight=3, mem_gb=12),
+        J("c01_extmap_dispatch_1", unwind=6, uw=ext_uw(1), stubs=EXT_STUBS, desc="ExtensionsMap::try_from_iter on [T9] (any singleton, any byte)"),
+        J("c01_ulist_1", unwind=6, uw=ext_uw(1), stubs=EXT_STUBS, desc="UnicodeExtensionList::try_from_iter on [T9]"),
+        J("c01_tlist_1", tier="t", unwind=6, uw=ext_uw(1), stubs=EXT_STUBS, desc="TransformExtensionList::try_from_iter on [T9]", mem_gb=30, cbmc=NOPTR, weight=4),
+        J("c01_plist_2", unwind=6, uw=ext_uw(2), stubs=EXT_STUBS, desc="PrivateExtensionList::try_from_iter on [T9,T9]"),
+        J("c01_plist_3", unwind=6, uw=ext_uw(3), stubs=EXT_STUBS, desc="on [T9,T9,T9]", weight=2),
+        J("c01_bytes_en_u_ca", unwind=9, uw=glue_uw(7, 3), stubs=TLIST_STUBS, desc="LanguageIdentifier/Locale/ExtensionsMap::from_bytes on 'en?u?ca', every ? any byte", weight=4, mem_gb=24, cbmc=NOPTR),
+        J("c01_bytes_x_a", tier="t", unwind=7, uw=glue_uw(5, 3), stubs=TLIST_STUBS, desc="the three from_bytes on '?x?a?'", weight=4, mem_gb=24, cbmc=NOPTR),
+        # extension bodies on length-profiled frames, getters/setters with arbitrary arguments, table queries:
+        # the harnesses of C02/C03/C10/C07/C14 run under C01 too
+        reuse("C02", "c02_bytes_len2"), reuse("C02", "c02_tokens_2"),
+        reuse("C03", "c03_u_2_3_9"), reuse("C03", "c03_u_8_2_4"), reuse("C03", "c03_u_3_0"), reuse("C03", "c03_u_9"), reuse("C03", "c03_u_1"),
+        reuse("C03", "c03_t_2_3"), reuse("C03", "c03_t_3"), reuse("C03", "c03_x_3"),
+        reuse("C10", "c10_attr_history_2"), reuse("C10", "c10_tag_history_2"), reuse("C10", "c10_kw_history_1"), reuse("C10", "c10_tf_history_1"),
+        reuse("C07", "c07_laws_und"), reuse("C14", "c14_script_decides@nolikely") if False else reuse("C07", "c07_wrapper_und"),
+    ],
+    bounds="token level: language-identifier entry on 2 (quick) / 3 (thorough) subtags, each " + T9 + ", allow_extension symbolic; extension dispatcher and -u- body on one T9, -x- body on 2..3 T9, -t- body on one T9 (thorough); extension bodies on the length-profiled frames of C03; every extension getter/setter with T9 arguments on the default state and after one symbolic operation (C10 harnesses); byte level: every 2-byte string through LanguageIdentifier::from_bytes and the frames 'en?u?ca', '?x?a?' (every ? any byte) through LanguageIdentifier/Locale/ExtensionsMap::from_bytes; maximize for every (und, script?, region?)",
+    outside="subtags longer than 9 bytes; inputs with more subtags than the frames; allocation failure; FromStr (same code path as from_bytes on as_bytes()); minimize and the 7143-row table (thorough tiers of C06/C08); stack depth (the call graph has no recursion: CBMC reports recursion as an unwinding obligation and none appears)",
+)
+
+
+def under(cfg, pid, name, tier="q"):
+    import copy
+    j_ = copy.copy(job(pid, name))
+    j_.cfg = cfg
+    j_.tier = tier
+    return j_
+
+# harnesses that assert exact agreement with a feature-independent reference (or a law of the library alone)
+C20_SET = [("C15", "c15_language_exact"), ("C15", "c15_script_exact"), ("C15", "c15_region_exact"), ("C15", "c15_variant_exact"),
+           ("C02", "c02_tokens_2"), ("C04", "c04_langid_display_v0"), ("C11", "c11_langid_formula_v1"), ("C12", "c12_langid_eq_ord_v1"),
+           ("C10", "c10_attr_history_2"), ("C10", "c10_variants_2"), ("C03", "c03_u_2_3"), ("C13", "c13_superset_1")]
+_c20 = []
+for cfg_ in FACADE_CFGS:
+    quick_cfg = cfg_ in ("facade_none", "facade_likel_serde_macro")
+    for pid_, name_ in C20_SET:
+        _c20.append(under(cfg_, pid_, name_, "q" if quick_cfg else "t"))
+PROPS["C20"] = P(
+    jobs=_c20,
+    bounds="the exact-reference harnesses " + ", ".join(n for _, n in C20_SET) + " rebuilt through the facade crates unic-langid / unic-locale with no features and with all of {likelysubtags, serde, macros} (quick) and under all 8 feature subsets (thorough); each verifies against the same feature-independent reference, hence the configurations agree with each other on every input within the harness bounds",
+    outside="behaviour not covered by an exact-reference harness (error Display text, Debug output); character_direction (feature-indexed by design, C14)",
 )
